@@ -991,7 +991,7 @@ func checkC16(c *Ctx) {
 		if got.E != "panic" || got.D == "-" || got.V {
 			c.violate(Violation{What: "LastDebugErr does not tell exactly when a reached comparison could not be decided", Rule: text, RuleHex: hx(text), Object: obj.Pretty(), ObjProto: obj.String(),
 				Demand: "the first comparison is reached and undecidable (alone: " + alone.Line() + "), the second ends the call in a recovered panic: verdict false, an error, LastDebugErr()!=nil",
-				Go: got.Line() + " " + got.ErrText})
+				Go:     got.Line() + " " + got.ErrText})
 		}
 	}
 	c.combLoop(n, 8, func() *Node { return genLeaf(c.R, 3) }, ObjOpts{AbsentPct: 20, NilPct: 8, NullParent: 10}, func(cc *combCase) *Violation {
